@@ -540,6 +540,20 @@ func (fr *frame) havocLoop(st *State, m *loopMods) {
 			es = classSorts[c]
 		}
 		if es == nil {
+			es = sortOfClassName(c)
+		}
+		if es == nil && strings.HasPrefix(c, "ghostf:") {
+			// a ghost field named in full by a callee's modifies clause: its declared sort (per object: Ref -> sort)
+			if gfd, ok := fc.reg.gfields[strings.TrimPrefix(c, "ghostf:")]; ok {
+				fc.reg.specValue(nil, gfd.SType, func(path string, srt *Sort) *Term {
+					if path == "" {
+						es = srt
+					}
+					return zeroTerm(srt)
+				})
+			}
+		}
+		if es == nil {
 			panic(unsupported("loop target heap class " + c + " has an unknown sort (named only through allof before any use)"))
 		}
 		noteClass(c, es, false)
@@ -1076,4 +1090,21 @@ func writesRanged(x *ast.RangeStmt) bool {
 		return true
 	})
 	return found
+}
+
+// sortOfClassName derives the element sort of a heap class from its name when the class was only named
+// (through allof("...") in a callee's modifies clause) before anything of that class was read or written:
+// elem<T> for the basic element types.
+func sortOfClassName(c string) *Sort {
+	if strings.HasPrefix(c, "elem<") && strings.HasSuffix(c, ">") {
+		switch c[5 : len(c)-1] {
+		case "string":
+			return SArray(SInt, SString)
+		case "bool":
+			return SArray(SInt, SBool)
+		case "int", "int8", "int16", "int32", "int64", "uint", "uint8", "uint16", "uint32", "uint64", "byte", "rune", "uintptr":
+			return SArray(SInt, SInt)
+		}
+	}
+	return nil
 }
